@@ -12,10 +12,18 @@ Record nav_obs := mkNavObs {
   no_active : bool;           (* filtersActive() *)
   no_filtered : list nat;     (* C.MsgTxsFiltered *)
   no_cursor : Z;              (* C.CursorTx1 *)
-  no_err : N                  (* the debugger machine after the command: 0 fine, 1 Exception after an
+  no_err : N;                 (* the debugger machine after the command: 0 fine, 1 Exception after an
                                  index-out-of-range panic of a handler, 2 Exception otherwise,
                                  3 the command never returned (the rest repeats the previous snapshot) *)
+  no_sel : nat                (* whose snapshot this is (Debugger.C): 0 the main client, 1 the decoy *)
 }.
+
+(* a command of the harness: one on the selected client, or a client switch
+   (SelectingClient; 0 the main client, 1 the decoy, anything else: no such
+   client) *)
+Inductive nav_cmd2 :=
+| NC (c : nav_cmd)
+| NSelect (who : nat).
 
 Record c16case := mkCase {
   k_machine : bool;           (* the stream comes from a real machine through the real dbg.Tracer *)
@@ -38,10 +46,11 @@ Record c16case := mkCase {
   o_haderr : list (Z * list bool);  (* tx, answers per distance *)
   k_fset : list nat;          (* MsgTxsFiltered during the FilterIndexByCursor1 queries *)
   o_fidx : list (Z * Z);
-  (* headless debugger: 0 none, 1 imported session, 2 live messages *)
+  (* headless debugger: 0 none, 1 imported session, 2 live messages, 3 live messages of TWO clients
+     (main + decoy, interleaved batches) *)
   k_nav : N;
   o_nav0 : nav_obs;           (* after the client got selected *)
-  o_nav : list (nav_cmd * nav_obs);
+  o_nav : list (nav_cmd2 * nav_obs);
   (* export / import *)
   (* the lists below are delta-encoded by the harness against k_msgs /
      o_parsed: (length, entries that print differently); see [unpatch] *)
@@ -49,8 +58,32 @@ Record c16case := mkCase {
   k_reimp : bool;             (* the debugger's own store was exported and imported again *)
   d_re_msgs : nat * list (nat * msg);    (* second generation: Client.MsgTxs *)
   d_re_parsed : nat * list (nat * parsed);  (* second generation: MsgTxsParsed *)
-  o_re_errors : list nat      (* second generation: Errors *)
+  o_re_errors : list nat;     (* second generation: Errors *)
+  (* the decoy client (k_nav = 3): its records and the index the debugger derived from them; it shares
+     the main client's schema *)
+  k_msgs2 : list msg;
+  o_parsed2 : list parsed
 }.
+
+(* the same case seen from the decoy: its records take the place of the main
+   client's (only the navigation functions are applied to it) *)
+Definition k_decoy (k : c16case) : c16case :=
+  mkCase (k_machine k) (k_n k) (k_errst k) (k_health k) (k_init k) (k_truth k) (k_msgs2 k) (o_parsed2 k)
+         (o_errors k) (o_mtime k) (o_qtick k) (o_htime k) (o_mtimeq k) (o_txidx k) (k_dists k) (o_haderr k)
+         (k_fset k) (o_fidx k) (k_nav k) (o_nav0 k) (o_nav k) (d_stored k) (k_reimp k) (d_re_msgs k)
+         (d_re_parsed k) (o_re_errors k) (k_msgs k) (o_parsed k).
+
+Definition k_of (k : c16case) (who : bool) : c16case := if who then k_decoy k else k.
+
+(* one client: a client switch is rejected by SelectingClientEnter (the same
+   client, or none of that name) and changes nothing, like a jump to cursor 0 *)
+Definition as_single (c : nav_cmd2) : nav_cmd :=
+  match c with NC c => c | NSelect _ => NScroll 0 end.
+
+Definition nav1 (k : c16case) : list (nav_cmd * nav_obs) :=
+  map (fun co => (as_single (fst co), snd co)) (o_nav k).
+
+Definition is_live (k : c16case) : bool := N.eqb (k_nav k) 2 || N.eqb (k_nav k) 3.
 
 Definition unpatch {A} (d : A) (base : list A) (p : nat * list (nat * A)) : list A :=
   map (fun i => match find (fun e => Nat.eqb (fst e) i) (snd p) with
@@ -115,9 +148,83 @@ Fixpoint nav_mismatch (k : c16case) (prev : nav_obs) (l : list (nav_cmd * nav_ob
 (* the list the debugger holds right after the client was selected *)
 Definition nav0_filtered (k : c16case) : list nat :=
   let o := o_nav0 k in
-  if N.eqb (k_nav k) 2 then filter_live (no_flags o) (k_health k) (k_msgs k) (o_parsed k)
+  if is_live k then filter_live (no_flags o) (k_health k) (k_msgs k) (o_parsed k)
   else if no_active o then filter_client_txs (no_flags o) (k_health k) (k_msgs k) (o_parsed k)
   else [].
+
+(* ---- two clients (k_nav = 3). Judged step by step from the previous
+   snapshot, as above; what is not in a snapshot is carried along: *)
+Record nav2_st := mkN2 {
+  n_oc : Z;                   (* CursorTx1 of the client that is NOT selected (as seen when it was left; 0: never selected) *)
+  n_ofl : list nat;           (* its MsgTxsFiltered *)
+  n_last : option N;          (* lastScrolledTxTime; None = not known yet (no command went through hSetCursor1) *)
+  n_live : bool;              (* the selected client's list was (partly) built message by message *)
+  n_olive : bool;             (* ... the other client's *)
+  n_fresh : bool              (* the selected client's list was recomputed by a selection under the current flags *)
+}.
+
+Definition nav2_init (k : c16case) : nav2_st :=
+  mkN2 0 (filter_live (no_flags (o_nav0 k)) (k_health k) (k_msgs2 k) (o_parsed2 k)) None true true false.
+
+Definition sel_of (o : nav_obs) : bool := Nat.eqb (no_sel o) 1.
+
+(* the model state the previous snapshot stands for *)
+Definition obs_dbg (k : c16case) (prev : nav_obs) (st : nav2_st) : dbg :=
+  let s := sel_of prev in
+  let csel := mkClient (k_msgs (k_of k s)) (o_parsed (k_of k s)) (no_filtered prev) (no_cursor prev) in
+  let coth := mkClient (k_msgs (k_of k (negb s))) (o_parsed (k_of k (negb s))) (n_ofl st) (n_oc st) in
+  mkDbg s (if s then coth else csel) (if s then csel else coth) (no_flags prev)
+        (match n_last st with Some t => t | None => 0%N end).
+
+Definition to_event (prev cur : nav_obs) (c : nav_cmd2) : event :=
+  match c with
+  | NC NRefilter => EToggle (no_flags cur)
+  | NC c => ENav c
+  | NSelect w => if Nat.ltb w 2 then ESelect (Nat.eqb w 1) else ESelect (sel_of prev)
+  end.
+
+Definition switching (d : dbg) (e : event) : bool :=
+  match e with ESelect w => negb (Bool.eqb w (d_sel d)) | _ => false end.
+
+(* codes 12 who is selected, 13 / 14 list / cursor after a client switch,
+   11 list or cursor after another command *)
+Definition nav2_mismatch_one (k : c16case) (prev : nav_obs) (st : nav2_st) (c : nav_cmd2) (cur : nav_obs)
+    : list N :=
+  if N.eqb (no_err cur) 3 then [] else
+  let d := obs_dbg k prev st in
+  let e := to_event prev cur c in
+  let d' := dbg_step (k_health k) d e in
+  let cl := sel_client d' in
+  let sw := switching d e in
+  ((if Nat.ltb (no_sel cur) 2 && Bool.eqb (d_sel d') (sel_of cur) then [] else [12]) ++
+   (if lnat_eqb (c_filtered cl) (no_filtered cur) then [] else [if sw then 13 else 11]) ++
+   (if (sw && match n_last st with None => true | Some _ => false end)
+       || Z.eqb (c_cursor cl) (no_cursor cur) then [] else [if sw then 14 else 11]))%N.
+
+Definition nav2_next (k : c16case) (prev : nav_obs) (st : nav2_st) (c : nav_cmd2) (cur : nav_obs)
+    : nav2_st :=
+  let d := obs_dbg k prev st in
+  let e := to_event prev cur c in
+  let sw := switching d e in
+  let before := if sw then n_oc st else no_cursor prev in
+  let last' := if sets_cursor d e
+               then Some (scrolled_time (k_msgs (k_of k (sel_of cur))) before (no_cursor cur))
+               else n_last st in
+  if sw then
+    mkN2 (no_cursor prev) (no_filtered prev) last'
+         (if no_active cur then false else n_olive st) (n_live st) (no_active cur)
+  else
+    match c with
+    | NC NRefilter => mkN2 (n_oc st) (n_ofl st) last' (n_live st && negb (no_active cur)) (n_olive st) false
+    | _ => mkN2 (n_oc st) (n_ofl st) last' (n_live st) (n_olive st) (n_fresh st)
+    end.
+
+Fixpoint nav2_mismatch (k : c16case) (prev : nav_obs) (st : nav2_st) (l : list (nav_cmd2 * nav_obs))
+    : list N :=
+  match l with
+  | [] => []
+  | (c, o) :: r => nav2_mismatch_one k prev st c o ++ nav2_mismatch k o (nav2_next k prev st c o) r
+  end.
 
 Definition mismatch (k : c16case) : list N :=
   let '(ps, errs, mt) := model_parse k in
@@ -135,7 +242,10 @@ Definition mismatch (k : c16case) : list N :=
   (if N.eqb (k_nav k) 0 then [] else
      (if N.eqb (no_err (o_nav0 k)) 3 || lnat_eqb (no_filtered (o_nav0 k)) (nav0_filtered k)
       then [] else [10]) ++
-     (if nav_mismatch k (o_nav0 k) (o_nav k) then [11] else [])))%N.
+     (if N.eqb (k_nav k) 3 then
+        (if Nat.eqb (no_sel (o_nav0 k)) 0 then [] else [12]) ++
+        nav2_mismatch k (o_nav0 k) (nav2_init k) (o_nav k)
+      else if nav_mismatch k (o_nav0 k) (nav1 k) then [11] else [])))%N.
 
 (* ------------------------------------------------------------------ kind 2 *)
 
@@ -205,6 +315,57 @@ Fixpoint nav_codes (k : c16case) (live : bool) (prev : nav_obs) (l : list (nav_c
     nav_codes k live' o r
   end.
 
+(* ---- two clients. A client switch recomputes the view of the newly
+   selected client under the current flags: right after it the view is judged
+   against the matching records of THAT client (66 / 67 / 660), the cursor
+   against them (68); until the next toggle every cursor command is judged
+   against a scan over the records (68 landed on a hidden record, 69 passed
+   over a matching one). Everything else as with one client. *)
+Definition step_target (k : c16case) (prev : nav_obs) (c : nav_cmd2) : option (Z * bool) :=
+  match c with
+  | NC NRefilter => None
+  | NC c' => nav_target (k_msgs k) (no_cursor prev) c'
+  | NSelect _ => None
+  end.
+
+Fixpoint nav2_codes (k : c16case) (prev : nav_obs) (st : nav2_st) (l : list (nav_cmd2 * nav_obs)) : list N :=
+  match l with
+  | [] => []
+  | (c, o) :: r =>
+    let d := obs_dbg k prev st in
+    let e := to_event prev o c in
+    let sw := switching d e in
+    let st' := nav2_next k prev st c o in
+    let kp := k_of k (sel_of prev) in
+    let ks := k_of k (sel_of o) in
+    let len := length (k_msgs ks) in
+    (if N.eqb (no_err o) 3 then err_codes kp prev o
+     else if sw then err_codes ks o o else err_codes kp prev o) ++
+    (if N.eqb (no_err o) 3 then []
+     else if sw && no_active o then
+       view_codes (no_flags o) (k_health ks) (k_msgs ks) (o_parsed ks) (no_filtered o) ++
+       (if negb (cursor_in_range len (no_cursor o)) then [63%N]
+        else if shown_matches (no_flags o) (k_health ks) (k_msgs ks) (o_parsed ks) (no_cursor o) then []
+        else [68%N])
+     else if negb sw && n_fresh st' && no_active o then
+       (if negb (cursor_in_range len (no_cursor o)) then [63%N]
+        else match step_target ks prev c with
+             | Some (new, back) =>
+               scan_codes (no_flags o) (k_health ks) (k_msgs ks) (o_parsed ks) new (no_cursor o) back
+             | None => []
+             end)
+     else filtered_codes ks (n_live st') o ++ shown_codes ks (n_live st') o) ++
+    (match c, r with
+     | NC (NFwd a), (NC (NBack b), o2) :: _ =>
+       if Z.leb a 1 && Z.leb b 1
+          && cursor_ok (no_active prev) (no_filtered prev) (length (k_msgs kp)) (no_cursor prev)
+          && negb (fwd_back_ok (no_cursor prev) (no_cursor o) (no_cursor o2))
+       then [62%N] else []
+     | _, _ => []
+     end) ++
+    nav2_codes k o st' r
+  end.
+
 Definition violations (k : c16case) : list N :=
   let ms := k_msgs k in
   let mono_s := sums_monotone ms in
@@ -253,11 +414,12 @@ Definition violations (k : c16case) : list N :=
    else []) ++
   (* (4) filters and navigation *)
   (if N.eqb (k_nav k) 0 then [] else
-     let live := N.eqb (k_nav k) 2 in
+     let live := is_live k in
      err_codes k (o_nav0 k) (o_nav0 k) ++
      (if N.eqb (no_err (o_nav0 k)) 3 then []
       else filtered_codes k live (o_nav0 k) ++ shown_codes k live (o_nav0 k)) ++
-     nav_codes k live (o_nav0 k) (o_nav k)))%N.
+     (if N.eqb (k_nav k) 3 then nav2_codes k (o_nav0 k) (nav2_init k) (o_nav k)
+      else nav_codes k live (o_nav0 k) (nav1 k))))%N.
 
 Definition check_one (ic : N * c16case) : list (N * N * N) :=
   let '(i, k) := ic in
